@@ -18,7 +18,8 @@ RULE = ("Generated: three state types, n 1..3 (thorough ..4), parameters with sc
         "Non-trivial = non-real target and (complex/density) a basis containing Y, (density) target rank > 1.")
 RULE_EXT = ('Extended as built: deprecated aliases, repeatability and target-unchanged checks, sparse targets with exact zeros (TINY=1e-15 convention), bases given as ndarray, datasets of up to 700 rows, polarised states, an in-place parameter history A -> B -> A, ignored extra keyword arguments.')
 RULE = RULE + " " + RULE_EXT
-ASSUMPTIONS = ["cases where a reference Born probability that is paired with positive target mass is < 1e-12 are excluded and counted "
+ASSUMPTIONS = ["rotated Born probabilities that are tiny because their terms cancel (|sum|/sum|terms| small) are ill-conditioned in any float64 implementation: cases where the resulting error bound on KL exceeds 1e-10 (or a sampled row has |sum|/sum|terms| < 1e-6) are excluded and counted; KL against the model's own state is 0 to within 2e-8 (softplus threshold e^-20 per hidden unit)",
+               "cases where a reference Born probability that is paired with positive target mass is < 1e-15 are excluded and counted "
                "(torch's probs_to_logits clamps probabilities at machine epsilon)",
                "tolerance 1e-8*(1+|value|) for KL/NLL and pure fidelity, 1e-6 for mixed fidelity (square roots of small eigenvalues)"]
 
@@ -120,6 +121,15 @@ def check(c):
         born = lambda v, b: (R.kron_U(ud, b) @ v).abs() ** 2
         target, model = tv, psi
         nonreal = bool((tv.imag.abs() > 1e-9).any())
+    def inv_cond(M, b):
+        """|sum of terms| / sum |terms| of every rotated Born probability: a probability that is tiny because its terms cancel carries the
+        rounding of the terms (relative error eps / inv_cond) in ANY float64 implementation; a tiny probability without cancellation does not"""
+        U = R.kron_U(ud, b)
+        if dens:
+            mag = (U.abs() @ M.abs() @ U.abs().t()).diagonal().real
+        else:
+            mag = (U.abs() @ M.abs()) ** 2
+        return born(M, b) / (mag + 1e-300)
     lib_t = R.c_to_lib(target)
     lib_own = R.c_to_lib(own)
     keep_t, keep_own = lib_t.clone(), lib_own.clone()
@@ -167,6 +177,10 @@ def check(c):
     ps = [born(model, b) for b in blist]
     TINY = 1e-15      # torch's probs_to_logits clamps at double eps (2.2e-16): only probabilities below ~1e-15 are outside the comparable regime
     risky = any(bool(((p < TINY) & (q > 0)).any()) for p, q in zip(ps, qs))
+    # ill-conditioned rotated probabilities that carry target mass: bound on the rounding error any implementation makes in sum q log(q/p)
+    kl_err_bound = max(float((q / q.sum() * 4e-16 / inv_cond(model, b).clamp(min=1e-300))[q > 0].sum()) for q, b in zip(qs, blist))
+    if kl_err_bound > 1e-10:
+        risky = True
     if risky:
         excluded += 1
     else:
@@ -184,10 +198,10 @@ def check(c):
         require(is_plain_float(kl), "KL:type", f"KL returned {type(kl).__name__}, not a plain real number")
         require(abs(kl - want) <= 1e-8 * (1 + abs(want)), "KL:value" + (":bases=None" if bases is None else ""),
                 f"KL = {kl} but the mean Kullback-Leibler divergence of the Born distributions over bases {blist} is {want}")
-        require(kl >= -1e-9, "KL:negative", f"KL divergence {kl} is negative")
+        require(kl >= -2e-8, "KL:negative", f"KL divergence {kl} is negative")
     if not any(bool((p < TINY).any()) for p in ps):
         kl_own = TS.KL(state, lib_own, space, bases=bases)
-        require(is_plain_float(kl_own) and abs(kl_own) <= 1e-9, "KL:own-state" + (":bases=None" if bases is None else ""),
+        require(is_plain_float(kl_own) and abs(kl_own) <= 2e-8, "KL:own-state" + (":bases=None" if bases is None else ""),
                 f"KL against the model's own state is {kl_own}, not 0 (bases {bases})")
 
     # the same target tensors are used for every call above (as a training script does): they must not have been altered, and
@@ -208,7 +222,7 @@ def check(c):
     for b, k in rows:
         pb = born(model, b)
         pb = pb / pb.sum()
-        if float(pb[k]) < TINY:
+        if float(pb[k]) < TINY or float(inv_cond(model, b)[k]) < 1e-6:      # below eps, or tiny through cancellation (ill-conditioned): excluded and counted
             ok = False
         want -= float(torch.log(pb[k])) / N
     if ok:
